@@ -1910,7 +1910,9 @@ class MatlabWrapper(CheckMixin, FormatMixin):
         modules = {}
         for file in files:
             with open(file, 'r', encoding="UTF-8") as f:
-                content += f.read()
+                # Keep the files apart: a file may end in a `//` comment or a
+                # token without a trailing newline.
+                content += f.read() + "\n"
 
         # Parse the contents of the interface file
         parsed_result = parser.Module.parseString(content)
